@@ -100,13 +100,20 @@ theorem termination_event (s : KState ℚ σ) (p : EvId) (pr : ProcRec σ) (o : 
 
 /-- **A failed event nobody handled makes `step()` raise that exception** instead of continuing silently; a handled
 (defused) failure, or a success, lets the run continue. -/
-theorem failure_not_lost (l : LoopSt ℚ σ) (e : EvId) (x : Exc) (hs : l.stop = none) (ha : l.abort = none)
+theorem failure_not_lost (l : LoopSt ℚ σ) (e : EvId) (x : Exc) (hs : l.stop = none)
     (hx : (l.s.ev e).out = some (.fail x)) :
     ((l.s.ev e).defused = false → closeEvent l e = .crash x l.s) ∧
     ((l.s.ev e).defused = true → closeEvent l e = .ok l.s) := by
   unfold closeEvent
-  simp only [ha, hs, hx]
+  simp only [hs, hx]
   constructor <;> intro h <;> simp [h]
+
+/-- …and when the failed event is the one `run(until=event)` waits for, `run` re-raises its exception (after every
+waiter of the event has been resumed). -/
+theorem failed_until_event_raises (body : σ → Resume → Burst ℚ σ) (fuel n : Nat) (e : EvId) (s s' : KState ℚ σ)
+    (o : Outcome) (x : Exc) (h : step body fuel s = .stopped o s') (hx : (s'.ev e).out = some (.fail x)) :
+    runLoop body fuel (some e) (n + 1) s = .raised x s' := by
+  simp only [runLoop, h, onStop, Option.bind_some, hx]
 
 /-! non-vacuity: a failed, undefused event in a concrete state -/
 example : closeEvent ({ s := ({ now := 0, events := #[{ kind := .plain, cbs := none, out := some (.fail ⟨"KeyError", [.int 3]⟩) }] }
